@@ -130,6 +130,7 @@ fn random_op() -> BoxedStrategy<BOp> {
     1 => any::<bool>().prop_map(|a| BOp::Set(ClaimSpec::Native(if a { "a" } else { "b" }.to_string(), NativeVal::OptNone))),
     4 => (any::<u16>(), 0usize..1000).prop_map(|(i, n)| BOp::Set(ClaimSpec::Custom(NEAR_KEYS[pick(i, NEAR_KEYS.len())].to_string(), json!(n)))),
     1 => (0u8..3, 0usize..1000).prop_map(|(t, n)| BOp::Set(ClaimSpec::CustomOwned(long_key(t), json!(n)))),
+    1 => (any::<bool>(), gen::json_doc_value()).prop_map(|(a, v)| BOp::Set(ClaimSpec::Custom(if a { "a" } else { "b" }.to_string(), v))),
     2 => Just(BOp::Ack),
     1 => Just(BOp::BuildWithUnusableKey),
     1 => Just(BOp::OtherBuildersFail),
@@ -152,6 +153,100 @@ fn many_keys_op() -> BoxedStrategy<BOp> {
   .boxed()
 }
 
+// ---------------------------------------------------------------- keys no builder of the process has seen, met by several threads at once
+
+static FRESH: std::sync::atomic::AtomicU64 = std::sync::atomic::AtomicU64::new(0);
+
+/// `threads` threads, each with a builder of its own, are released together `rounds` times; in every round each thread's
+/// NEW builder is given one custom key twice - a key name that no builder in this process has been given before - then
+/// asked to build.
+#[derive(Clone, Debug, serde::Serialize, serde::Deserialize)]
+pub struct FreshKeyCase {
+  pub proto: Proto,
+  pub threads: u8,
+  pub rounds: u32,
+  pub stem: String,
+  /// also supply a distinct, thread-private fresh key once before the repeated one
+  pub private_first: bool,
+}
+
+pub struct FreshKeys;
+
+impl Sub for FreshKeys {
+  type Case = FreshKeyCase;
+  fn name(&self) -> String {
+    "C17/fresh-keys-on-many-threads".into()
+  }
+  fn check(&self, c: &FreshKeyCase, cl: &mut Classes) -> Verdict {
+    use std::sync::atomic::{AtomicU32, Ordering};
+    let p = c.proto;
+    let threads = c.threads.clamp(2, 32) as usize;
+    let rounds = c.rounds.min(5000);
+    // a process-wide serial number keeps the names new when the same case runs again in this process
+    let serial = FRESH.fetch_add(1, Ordering::Relaxed);
+    let arrived = AtomicU32::new(0);
+    let gate = AtomicU32::new(0);
+    let km = crate::keys::material(p, &[17u8; 32]);
+    let lk = match km.lib() {
+      Ok(k) => k,
+      Err(_) => return Verdict::Discard,
+    };
+    let lk = &lk;
+    let (arrived, gate) = (&arrived, &gate);
+    let outcomes: Vec<Option<(u32, String)>> = std::thread::scope(|sc| {
+      let hs: Vec<_> = (0..threads)
+        .map(|t| {
+          sc.spawn(move || {
+            for r in 0..rounds {
+              let key = format!("{}-{}-{}", c.stem, serial, r);
+              let mine = format!("{}-{}-{}-t{}", c.stem, serial, r, t);
+              let specs = [ClaimSpec::CustomOwned(mine, json!(t)), ClaimSpec::CustomOwned(key.clone(), json!(1)), ClaimSpec::CustomOwned(key.clone(), json!(2))];
+              let mut b = new_builder(p, Layer::Prelude);
+              arrived.fetch_add(1, Ordering::AcqRel);
+              while gate.load(Ordering::Acquire) <= r {
+                std::hint::spin_loop();
+              }
+              if c.private_first {
+                let _ = b.set(&specs[0]);
+              }
+              let _ = b.set(&specs[1]);
+              let _ = b.set(&specs[2]);
+              match b.build(lk) {
+                Err(e) if e.class == ErrClass::Duplicate && e.args.first().map(|s| s.as_str()) == Some(key.as_str()) => {}
+                Err(e) => return Some((r, format!("build failed with {} instead of a duplicate-claim error naming {:?}", e.text, key))),
+                Ok(_) => return Some((r, format!("build returned a token although {:?} was supplied twice to this builder", key))),
+              }
+            }
+            None
+          })
+        })
+        .collect();
+      // release the threads round by round once all of them stand at the gate
+      for r in 0..rounds {
+        let mut spins = 0u64;
+        while arrived.load(Ordering::Acquire) < (threads as u32) * (r + 1) {
+          std::hint::spin_loop();
+          spins += 1;
+          if spins > 2_000_000_000 || hs.iter().any(|h| h.is_finished()) {
+            break; // a thread stopped early (it reports why): open every gate
+          }
+        }
+        gate.store(r + 1, Ordering::Release);
+      }
+      gate.store(u32::MAX, Ordering::Release);
+      hs.into_iter().map(|h| h.join().unwrap_or(Some((0, "a thread panicked".into())))).collect()
+    });
+    cl.tag(format!("{}:threads={}", p.label(), threads));
+    cl.nontrivial(rounds >= 10);
+    for (t, o) in outcomes.iter().enumerate() {
+      if let Some((r, what)) = o {
+        vio!("C17:duplicate-built:fresh-key-on-many-threads"; "thread {} of {}, round {}: {} ({} threads gave the same never-seen key name to their own builders at the same moment)", t, threads, r, what, threads);
+      }
+    }
+    Verdict::Pass
+  }
+}
+
 fn all_subs() -> Vec<Duplicates> {
   let mut v = vec![Duplicates { proto: Proto::V4L, kind: "exhaustive" }, Duplicates { proto: Proto::V4L, kind: "many-keys" }, Duplicates { proto: Proto::V2P, kind: "many-keys" }];
   for proto in Proto::ALL {
@@ -161,7 +256,9 @@ fn all_subs() -> Vec<Duplicates> {
 }
 
 pub fn subs() -> Vec<Box<dyn DynSub>> {
-  all_subs().into_iter().map(|s| Box::new(s) as Box<dyn DynSub>).collect()
+  let mut v: Vec<Box<dyn DynSub>> = all_subs().into_iter().map(|s| Box::new(s) as Box<dyn DynSub>).collect();
+  v.push(Box::new(FreshKeys));
+  v
 }
 
 pub fn run(ctx: &Ctx) -> EvidenceMeta {
@@ -190,10 +287,16 @@ pub fn run(ctx: &Ctx) -> EvidenceMeta {
     }
   }
   run_jobs(jobs);
+  // alone on the machine (the threads spin at a gate): after the other jobs
+  let fk = &FreshKeys;
+  let rounds = ctx.n(400, 4000) as u32;
+  let fresh: Vec<FreshKeyCase> = Proto::ALL.iter().enumerate().map(|(i, proto)| FreshKeyCase { proto: *proto, threads: if i % 2 == 0 { 12 } else { 4 }, rounds, stem: format!("fresh{i}"), private_first: i % 3 == 1 }).collect();
+  run_jobs(vec![Box::new(move || ctx.enumerate(fk, fresh.into_iter(), true))]);
   EvidenceMeta {
     rule: format!("histories over PasetoBuilder::default(): set_claim(k, v) for k in {{exp,nbf,iat,iss,sub,aud,jti,custom a,custom b}} (values distinct per occurrence), acknowledge no-expiration, set_footer, build - every sequence up to length {max_len} on v4.local (exhaustive), generated sequences up to length 40 on all 8 protocols. \
            Oracle (model = multiset of supplied keys + position of the acknowledgement), at every build of the history: some key supplied twice (exp: twice before the acknowledgement) => Err(DuplicateTopLevelPayloadClaim(k)) with k duplicated (or exp after the acknowledgement), never a token, also on every later build; \
            exp supplied after the acknowledgement, any number of times => refused as duplicate or built without exp (latitude); otherwise => success and every supplied value is in the payload read back through GenericParser. \
+           Fresh keys on many threads: 4 / 12 threads, each with builders of its own, released together by a spin gate {rounds} times per protocol; in every round each thread gives its new builder one key name no builder of the process has seen, twice, and builds => every thread gets the duplicate-claim error naming that key. \
            Non-trivial = a key is repeated or a build follows a supplied claim; distinct by history."),
     assumptions: vec![],
   }
